@@ -269,6 +269,7 @@ class Env:
         self.objs_by_call: list[dict] = []
         self.call_has_handler = False
         self.target = None
+        self.timeline_obj = None
         self.call_t0 = self.clock.t
         d = self.case.get("cfg", {}).get("deadline")
         self.deadline_ticks = d if isinstance(d, int) else None
@@ -286,6 +287,10 @@ class Env:
         i = self.inv.get(name, 0)
         self.inv[name] = i + 1
         return i
+
+    def check_args(self, where: str, got: tuple) -> None:
+        if got != (1, "two", 3):
+            self.trace.append(("args_mangled", where, repr(got)))
 
     def maybe_fault(self, name: str, i: int) -> None:
         f = self.faults.get((name, i)) or self.faults.get((name, "always"))
@@ -979,7 +984,10 @@ def build_entry(env: Env, e: dict, cfg: dict, placement: dict):
     timeline = placement.get("timeline", True)
 
     def call_kwargs() -> dict:
-        kw: dict = dict(operation=cfg.get("operation", "op"))
+        kw: dict = {}
+        opname = cfg.get("operation", "op")
+        if opname is not None:  # None: the caller names no operation at all
+            kw["operation"] = opname
         if placement.get("metric", True):
             kw["on_metric"] = env.on_metric
         if placement.get("log", True):
@@ -993,7 +1001,11 @@ def build_entry(env: Env, e: dict, cfg: dict, placement: dict):
 
     def finish(fn, kw):
         if mode == "execute" and timeline:
-            kw["capture_timeline"] = True
+            if timeline == "instance":
+                env.timeline_obj = redress.RetryTimeline()  # the caller's own collector
+                kw["capture_timeline"] = env.timeline_obj
+            else:
+                kw["capture_timeline"] = True
         if is_async:
             return drive(fn(op, **kw)) if not env.suspend else fn(op, **kw)
         return fn(op, **kw)
@@ -1043,15 +1055,24 @@ def build_entry(env: Env, e: dict, cfg: dict, placement: dict):
             kw = call_kwargs()
             kw.update(call_level_callbacks(env, placement, is_async))
             ctx = target.context(**kw)
+            # the context manager forwards positional and keyword arguments to the operation
+            def sop(a, b=None, *, c=None):
+                env.check_args("context", (a, b, c))
+                return op()
+
+            async def aop_args(a, b=None, *, c=None):
+                env.check_args("context", (a, b, c))
+                return await op()
+
             if is_async:
 
                 async def go():
                     async with ctx as call:
-                        return await call(lambda: op())
+                        return await call(aop_args, 1, "two", c=3)
 
                 return drive(go()) if not env.suspend else go()
             with ctx as call:
-                return call(lambda: op())
+                return call(sop, 1, "two", c=3)
 
         return run_ctx
 
@@ -1068,17 +1089,19 @@ def build_entry(env: Env, e: dict, cfg: dict, placement: dict):
                 kw[name] = maker
             if is_async:
 
-                async def fn():
+                async def fn(a, b=None, *, c=None):
+                    env.check_args("decorator", (a, b, c))
                     return await op()
 
                 wrapped = redress.retry(**kw)(fn)
-                return drive(wrapped()) if not env.suspend else wrapped()
+                return drive(wrapped(1, "two", c=3)) if not env.suspend else wrapped(1, "two", c=3)
 
-            def sfn():
+            def sfn(a, b=None, *, c=None):
+                env.check_args("decorator", (a, b, c))
                 return op()
 
             wrapped = redress.retry(**kw)(sfn)
-            return wrapped()
+            return wrapped(1, "two", c=3)
 
         return run_dec
 
